@@ -40,3 +40,22 @@ pub fn verdict(ok: bool, what: &str) -> ! {
         std::process::exit(1)
     }
 }
+
+/// Values of the header `name` in a message head (first line skipped), the way a conforming recipient reads them: the name is
+/// matched without regard to letter case, the value is what follows the first colon with optional blanks around it removed.
+pub fn header_values(head: &str, name: &str) -> Vec<String> {
+    head.lines().skip(1).filter_map(|l| {
+        let mut p = l.splitn(2, ':');
+        let n = p.next()?;
+        let v = p.next()?;
+        if n.eq_ignore_ascii_case(name) { Some(v.trim_matches(|c| c == ' ' || c == '\t').to_string()) } else { None }
+    }).collect()
+}
+/// does the (comma separated) header `name` carry the element `token`?
+pub fn has_header_token(head: &str, name: &str, token: &str) -> bool {
+    header_values(head, name).iter().any(|v| v.split(',').any(|e| e.trim().eq_ignore_ascii_case(token)))
+}
+/// (name, value) pairs of a head, in order
+pub fn header_pairs(head: &str) -> Vec<(String, String)> {
+    head.lines().skip(1).filter_map(|l| { let mut p = l.splitn(2, ':'); let n = p.next()?; let v = p.next()?; Some((n.to_string(), v.trim_matches(|c| c == ' ' || c == '\t').to_string())) }).collect()
+}
